@@ -649,7 +649,7 @@ Proof. vm_compute. reflexivity. Qed.
 
 (* The recursion depth is bounded by the size of the graph, not by a constant: for every stack
    limit L there is a well-levelled flow graph (L+1 flows in sequence, e.g. sequential if
-   statements) on which resolution needs more than L frames (open findings F48 / F49). *)
+   statements) on which resolution needs more than L frames (open findings F48 / F50). *)
 Definition chain (n : nat) : fgraph :=
   map (fun i => {| own := []; parents := if Nat.eqb i 0 then [] else [PDirect (i - 1)]; outer := None |})
       (seq 0 n).
@@ -742,30 +742,43 @@ Proof.
   - unfold count_code. simpl. lia.
 Qed.
 
-Theorem format_fixed_wf res : forallb loc_wf (format_fixed res) = true.
+Theorem format_fixed_wf cur res : forallb loc_wf (format_fixed cur res) = true.
 Proof.
   induction res as [|[d|ds] r IH]; simpl; [reflexivity| |].
-  - destruct (fmt_obj d) as [[[l c] f]|]; simpl; exact IH.
-  - destruct (somes (map fmt_obj ds)) as [|x xs]; simpl; exact IH.
+  - destruct (fmt_obj cur d) as [[[l c] f]|]; simpl; exact IH.
+  - destruct (somes (map (fmt_obj cur) ds)) as [|x xs]; simpl; exact IH.
 Qed.
 
 (* on inputs where the pinned code does not fail the repaired code answers the same
    (declarations appends an alternative list only when it has more than one element) *)
-Theorem format_fixed_conservative res out :
+Theorem format_fixed_conservative cur res out :
   (forall ds, In (EAlts ds) res -> ds <> []) ->
-  format_as_is res = inr out -> format_fixed res = out.
+  format_as_is cur res = inr out -> format_fixed cur res = out.
 Proof.
   revert out. induction res as [|[d|ds] r IH]; simpl; intros out Hne H.
   - inversion H. reflexivity.
-  - destruct (fmt_obj d) as [[[l c] f]|]; [|discriminate].
-    destruct (format_as_is r) as [e|o]; [discriminate|]. inversion H; subst.
+  - destruct (fmt_obj cur d) as [[[l c] f]|]; [|discriminate].
+    destruct (format_as_is cur r) as [e|o]; [discriminate|]. inversion H; subst.
     rewrite (IH o) by (intros; try apply Hne; auto). reflexivity.
   - destruct (forallb _ ds) eqn:Hall; [|discriminate].
-    destruct (format_as_is r) as [e|o]; [discriminate|]. inversion H; subst.
+    destruct (format_as_is cur r) as [e|o]; [discriminate|]. inversion H; subst.
     rewrite (IH o) by (intros; try apply Hne; auto).
     destruct ds as [|d0 dr]; [exfalso; apply (Hne []); [left; reflexivity|reflexivity]|].
-    simpl in *. destruct (fmt_obj d0); [reflexivity|discriminate].
+    simpl in *. destruct (fmt_obj cur d0); [reflexivity|discriminate].
 Qed.
 
-Theorem format_as_is_refuted : exists res, format_as_is res = inl LAttributeError.
-Proof. exists [EOne Unlocated]. reflexivity. Qed.
+(* the reported column: shifted back by the mark exactly for declarations of the edited text on
+   the cursor's line right of the cursor, unchanged otherwise; never left of the cursor then *)
+Theorem unmark_spec cur l c e :
+  (e = true /\ l = fst cur /\ (snd cur < c)%Z -> unmark cur l c e = (c - mark_len)%Z) /\
+  (e = false \/ l <> fst cur \/ (c <= snd cur)%Z -> unmark cur l c e = c).
+Proof.
+  unfold unmark. split.
+  - intros (-> & -> & Hc). rewrite Z.eqb_refl. simpl. apply Z.ltb_lt in Hc. rewrite Hc. reflexivity.
+  - intros [->|[Hl|Hc]]; [reflexivity| |].
+    + apply Z.eqb_neq in Hl. rewrite Hl. rewrite andb_false_r. reflexivity.
+    + apply Z.ltb_ge in Hc. rewrite Hc. rewrite andb_false_r. reflexivity.
+Qed.
+
+Theorem format_as_is_refuted : forall cur, exists res, format_as_is cur res = inl LAttributeError.
+Proof. intros cur. exists [EOne Unlocated]. reflexivity. Qed.
